@@ -369,8 +369,8 @@ func readMessage(r io.Reader, header *wire.MessageHeader, msg wire.Message) erro
 	}
 
 	// Read payload.
-	payload := make([]byte, header.Length)
-	if _, err := io.ReadFull(rc, payload); err != nil {
+	payload, err := readPayload(rc, header.Length)
+	if err != nil {
 		return errors.Wrap(err, "read")
 	}
 
@@ -390,6 +390,30 @@ func readMessage(r io.Reader, header *wire.MessageHeader, msg wire.Message) erro
 	}
 
 	return nil
+}
+
+// readPayload reads a payload of the specified length. The length is declared by the peer, so it is not
+// used to size the allocation up front; the buffer grows as data is actually received.
+func readPayload(r io.Reader, length uint64) ([]byte, error) {
+	const chunkSize = uint64(1 << 20)
+
+	var payload []byte
+	for remaining := length; remaining > 0; {
+		size := remaining
+		if size > chunkSize {
+			size = chunkSize
+		}
+
+		chunk := make([]byte, size)
+		if _, err := io.ReadFull(r, chunk); err != nil {
+			return nil, err
+		}
+
+		payload = append(payload, chunk...)
+		remaining -= size
+	}
+
+	return payload, nil
 }
 
 func readInvVect(ctx context.Context, r io.Reader) (wire.InvVect, error) {
